@@ -34,8 +34,10 @@ func TestC03_SelfCertifying(t *testing.T) {
 	st := statsFor("C03")
 	check(t, "C03", 1500, func(t *rapid.T) {
 		p := wideProtocol()
-		p.MultihashAlgorithms = rapid.SampledFrom([][]uint{{18}, {19}, {18, 19}, {19, 18}}).Draw(t, "hashAlgs")
+		configured := rapid.SampledFrom([][]uint{{18}, {19}, {18, 19}, {19, 18}}).Draw(t, "hashAlgs")
+		p.MultihashAlgorithms = append([]uint{}, configured...) // the stack gets its own list: what it does to it is not what was configured
 		stack := newStack(p)
+		p.MultihashAlgorithms = append([]uint{}, configured...)
 		alg := genAlgFor(t, p)
 		ns := rapid.SampledFrom([]string{"did:sidetree", "did:ion", "did:x:y:z"}).Draw(t, "namespace")
 		rec, upd := genNoncedKey(t, p, "recovery"), genNoncedKey(t, p, "update")
